@@ -132,7 +132,13 @@ def stopping_game(rng, nmin=4, nmax=14):
         else:
             if kind == P2 and len(set(succ)) < len(succ) and rng.random() < 0.5:
                 succ = list(dict.fromkeys(succ))
+            if len(succ) >= 2 and rng.random() < 0.08:
+                succ = [succ[0]] * len(succ)            # parallel edges: every action ties with every other
             acts = rng.sample(ACTIONS, len(succ))
+            if len(succ) >= 3 and rng.random() < 0.15:
+                # two transitions carrying the same action label (a strategy names labels, not edges)
+                a_, b_ = rng.sample(range(len(succ)), 2)
+                acts[b_] = acts[a_]
             tl[i] = [(a, sx) for a, sx in zip(acts, succ)]
         fw = [sx for sx in succ if sx > i]
         if kind == P2:
@@ -148,7 +154,12 @@ def stopping_game(rng, nmin=4, nmax=14):
 
 def tiny_game(rng):
     """One- to three-state games: the smallest legal objects."""
-    k = rng.randrange(5)
+    k = rng.randrange(6)
+    if k == 5:      # parallel edges, one label used twice, everything ties
+        who = rng.choice([P1, P2])
+        labs = rng.sample(ACTIONS, 3)
+        return {"rewards": [rng.randint(0, 3), 0], "players": [who, PR],
+                "transition_list": [[(labs[0], 1), (labs[1], 1), (labs[0], 1), (labs[2], 1)], [(1, 1)]], "final_states": [1]}
     if k == 0:      # a single absorbing final state
         return {"rewards": [rng.choice([0, 3])], "players": [PR], "transition_list": [[(1, 0)]], "final_states": [0]}
     if k == 1:      # start -> final
